@@ -74,7 +74,7 @@ Theorem checked_case_satisfies_property : forall c a,
   fmt (c_toks c) = Some (print (norm a)) /\
   map strip (c_ftoks c) = map strip (print (norm a)) /\
   parse (c_ftoks c) = Some (norm a) /\
-  c_idem c = true /\ c_file_ok c = true.
+  c_idem c = true /\ c_file_ok c = true /\ c_conc_ok c = true.
 Proof. exact case_sound. Qed.
 Print Assumptions checked_case_satisfies_property.
 
@@ -191,7 +191,7 @@ Proof. vm_compute. split; reflexivity. Qed.
    a correct formatter returns for [ex_api], with two comments kept in place *)
 Definition ex_case : case :=
   mkCase None None true (print ex_api) [(0, "// head"); (3, "// after syntax")] [false; true] (Some ex_api) OOk OOk
-         (print (norm ex_api)) [(0, "// head"); (3, "// after   syntax ")] (Some (norm ex_api)) true true true [OErr; OOk].
+         (print (norm ex_api)) [(0, "// head"); (3, "// after   syntax ")] (Some (norm ex_api)) true true true true [OErr; OOk].
 
 Example ex_case_checked : agrees ex_case = true /\ prop_ok ex_case = true.
 Proof. vm_compute. split; reflexivity. Qed.
